@@ -64,6 +64,10 @@ def scenario(rng, k):
     sel = {"task": task, "latest": latest}
     steps.append({"cmd": "archive", "argv": argv, "out": "../A.tar.gz", "sel": sel})
     steps.append({"cmd": "copyproject", "name": "p2"})
+    if rng.random() < 0.35:
+        steps.append({"cmd": "restore", "argv": ["restore", "../A.tar.gz"], "archive": "../A.tar.gz", "project": "p2",
+                      "if_exists": "../A.tar.gz", "crash_at": rng.randrange(14, 60), "label": "interrupted"})
+        steps.append({"cmd": "gc", "argv": ["gc"], "project": "p2", "if_exists": "../A.tar.gz"})
     steps.append({"cmd": "restore", "argv": ["restore", "../A.tar.gz"], "archive": "../A.tar.gz", "project": "p2",
                   "if_exists": "../A.tar.gz"})
     steps.append({"cmd": "roundtrip", "project": "p2", "sel": sel, "if_exists": "../A.tar.gz"})
